@@ -4170,3 +4170,91 @@ TABLE.update({
     "std::option::Option::<T>::get_or_insert_with": option_get_or_insert_with,
     "std::option::Option::<T>::get_or_insert": option_get_or_insert_with,
 })
+
+
+# ---------------------------------------------------------------------------------- skip_while
+def it_skip_while(i, fr, st, pc, a, t, fn, r):
+    return _ret(i, st, pc, Opaque("skip_while", (a[0], a[1], False)))
+
+
+def _has_skip_while(it):
+    if isinstance(it, Opaque):
+        if it.kind == "skip_while":
+            return True
+        return any(_has_skip_while(x) for x in it.data if isinstance(x, (Opaque, Ptr)) or x is None or True)
+    return False
+
+
+_old_iter_next_multi_sw = iter_next_multi
+
+
+def iter_next_multi(i, fr, st, pc, it):  # noqa: F811
+    k = it.kind if isinstance(it, Opaque) else None
+    if k == "skip_while":
+        inner, clos, started = it.data
+        if started:
+            subs, oth = iter_next_multi(i, fr, st, pc, _as_iter(inner))
+            return [(s1, p1, Opaque("skip_while", (it2, clos, True)), item) for s1, p1, it2, item in subs], oth
+        res, others = [], []
+        work = [(st, pc, _as_iter(inner))]
+        while work:
+            s, p, cur = work.pop()
+            subs, oth = iter_next_multi(i, fr, s, p, cur)
+            others.extend(oth)
+            for s1, p1, cur2, item in subs:
+                if item is None:
+                    res.append((s1, p1, Opaque("skip_while", (cur2, clos, True)), None))
+                    continue
+                cell = new_cell()
+                s1.mem[cell] = item
+                for o in call_closure(i, fr, s1, p1, clos, [Ptr(cell, ())]):
+                    if o.kind != "return":
+                        others.append(o)
+                        continue
+                    v = o.value
+                    if isinstance(v, W) and v.val is not None:
+                        if v.val:
+                            work.append((o.state, o.pc, cur2))
+                        else:
+                            res.append((o.state, o.pc, Opaque("skip_while", (cur2, clos, True)), item))
+                    else:
+                        s2 = o.state.fork()
+                        res.append((o.state, o.pc + (b_not(v),), Opaque("skip_while", (cur2, clos, True)), item))
+                        work.append((s2, o.pc + (v,), cur2))
+            if len(work) + len(res) > i.max_paths:
+                raise Undecided("path budget in skip_while")
+        return res, others
+    if k == "zip" and _has_skip_while(it):
+        a_, b_ = it.data
+        res, others = [], []
+        subs_a, oth = iter_next_multi(i, fr, st, pc, _as_iter(a_))
+        others.extend(oth)
+        for s1, p1, a2, item_a in subs_a:
+            if item_a is None:
+                res.append((s1, p1, Opaque("zip", (a2, b_)), None))
+                continue
+            subs_b, oth2 = iter_next_multi(i, fr, s1, p1, _as_iter(b_))
+            others.extend(oth2)
+            for s2, p2, b2, item_b in subs_b:
+                res.append((s2, p2, Opaque("zip", (a2, b2)), None if item_b is None else Agg("tuple", None, 0, (item_a, item_b))))
+        return res, others
+    return _old_iter_next_multi_sw(i, fr, st, pc, it)
+
+
+_old_generic_next_sw = generic_next
+
+
+def generic_next_sw(i, fr, st, pc, a, t, fn, r):
+    it = i.read_ptr(st, a[0])
+    if _has_skip_while(it):
+        return multi_next(i, fr, st, pc, a, t, fn, r)
+    return _old_generic_next_sw(i, fr, st, pc, a, t, fn, r)
+
+
+for _k, _v in list(TABLE.items()):
+    if _v is _old_generic_next_sw:
+        TABLE[_k] = generic_next_sw
+TABLE.update({
+    "std::iter::Iterator::skip_while": it_skip_while,
+    "<std::iter::SkipWhile<I, P> as std::iter::Iterator>::next": multi_next,
+})
